@@ -1,6 +1,6 @@
 (* C09: what _to_ovf writes (header formulas, payload layout), what _from_ovf reads (layout,
-   OVF 1.0 component count), the label rule, and concrete witnesses for the two places where
-   the faithful model does NOT round-trip (labels containing "_", extend_scalar on vectors). *)
+   OVF 1.0 component count), the label rule (labels without spaces and braces come back unchanged; braces are
+   stripped), extend_scalar being ignored for vector fields, and concrete witnesses. *)
 From DF Require Import Prelude Constants_gen Region Mesh Ovf C09_layout.
 Open Scope Q_scope.
 
@@ -35,16 +35,16 @@ Section Codec.
     match type of H with (bind ?x _ = _) => destruct x as [labels|]; simpl in H; [|discriminate] end.
     destruct (negb (all_same _)); [discriminate|].
     destruct (dims3 (of_mesh f)) as [[[nx ny] nz]|]; [|discriminate].
-    destruct (extend && negb (repr_eqb rp RTxt) && negb (of_nvdim f =? 1)%nat); [discriminate|].
     inversion H; subst; clear H. simpl. repeat split; reflexivity.
   Qed.
 
-  Lemma encode_payload (f : ofield V) rp ss fl sc :
-    encode d zero wr f rp false ss = OK (fl, sc) ->
+  Lemma encode_payload (f : ofield V) rp extend ss fl sc :
+    extend && (of_nvdim f =? 1)%nat = false ->
+    encode d zero wr f rp extend ss = OK (fl, sc) ->
     exists nx ny nz, dims3 (of_mesh f) = Some (nx, ny, nz) /\
       f_payload fl = map (wr rp) (to_ovf_order d nx ny nz (of_nvdim f) (of_vals f)).
   Proof.
-    unfold encode. intros H.
+    unfold encode. intros He H. rewrite He in H.
     destruct (negb (ndim (reg (of_mesh f)) =? 3)%nat); [discriminate|].
     match type of H with (bind ?x _ = _) => destruct x as [labels|]; simpl in H; [|discriminate] end.
     destruct (negb (all_same _)); [discriminate|].
@@ -54,18 +54,26 @@ Section Codec.
   Qed.
 
   (* the written block is x fastest: entry ((k*ny+j)*nx+i)*nv+c is the stored value of component c of cell (i,j,k) *)
-  Lemma written_layout (f : ofield V) rp ss fl sc :
-    encode d zero wr f rp false ss = OK (fl, sc) ->
+  Lemma written_layout (f : ofield V) rp extend ss fl sc :
+    extend && (of_nvdim f =? 1)%nat = false ->
+    encode d zero wr f rp extend ss = OK (fl, sc) ->
     exists nx ny nz, dims3 (of_mesh f) = Some (nx, ny, nz) /\
       length (f_payload fl) = (nz * (ny * (nx * of_nvdim f)))%nat /\
       forall i j k c, (i < nx)%nat -> (j < ny)%nat -> (k < nz)%nat -> (c < of_nvdim f)%nat ->
         nth (opos nx ny (of_nvdim f) i j k c) (f_payload fl) (wr rp d)
         = wr rp (nth (cpos ny nz (of_nvdim f) i j k c) (of_vals f) d).
   Proof.
-    intros H. destruct (encode_payload f rp ss fl sc H) as (nx & ny & nz & Hd & Hp).
+    intros He H. destruct (encode_payload f rp extend ss fl sc He H) as (nx & ny & nz & Hd & Hp).
     exists nx, ny, nz. split; [exact Hd|]. rewrite Hp. split.
     - rewrite map_length. apply to_ovf_order_length.
     - intros i j k c Hi Hj Hk Hc. rewrite map_nth. f_equal. apply to_ovf_order_nth; assumption.
+  Qed.
+
+  (* extend_scalar has no effect on fields with more (or fewer) than one component *)
+  Lemma extend_ignored (f : ofield V) rp ss :
+    of_nvdim f <> 1%nat -> encode d zero wr f rp true ss = encode d zero wr f rp false ss.
+  Proof.
+    intros H. unfold encode. apply Nat.eqb_neq in H. rewrite H. reflexivity.
   Qed.
 
   (* ---- reader ---- *)
@@ -132,12 +140,9 @@ Arguments file_vd {V}.
 (* ---- labels ---- *)
 Fixpoint has_sp (s : string) : bool :=
   match s with EmptyString => false | String c t => Ascii.eqb c sp || has_sp t end.
-
-Lemma until_us_id s : has_us s = false -> until_us s = s.
-Proof.
-  induction s; simpl; [reflexivity|]. intros H. apply Bool.orb_false_iff in H. destruct H as [H1 H2].
-  rewrite H1. f_equal. apply IHs. exact H2.
-Qed.
+Fixpoint has_brace (s : string) : bool :=
+  match s with EmptyString => false
+  | String c t => Ascii.eqb c lbrace || Ascii.eqb c rbrace || has_brace t end.
 
 Lemma sp_to_us_id s : has_sp s = false -> sp_to_us s = s.
 Proof.
@@ -145,22 +150,29 @@ Proof.
   rewrite H1. f_equal. apply IHs. exact H2.
 Qed.
 
-(* the writer's label field_<c> is read back as c when c has neither "_" nor " " *)
-Lemma label_roundtrip c : has_us c = false -> has_sp c = false -> convert_label (field_label c) = c.
+Lemma strip_braces_id s : has_brace s = false -> strip_braces s = s.
+Proof.
+  induction s; simpl; [reflexivity|]. intros H. apply Bool.orb_false_iff in H. destruct H as [H1 H2].
+  rewrite H1. f_equal. apply IHs. exact H2.
+Qed.
+
+(* the writer's label field_<c> is read back as c for every c without spaces and braces
+   (underscores and any other characters included) *)
+Lemma label_roundtrip c : has_sp c = false -> has_brace c = false -> convert_label (field_label c) = c.
 Proof.
   intros H1 H2. unfold convert_label, field_label. simpl.
-  rewrite until_us_id by exact H1. apply sp_to_us_id. exact H2.
+  rewrite strip_braces_id by exact H2. apply sp_to_us_id. exact H1.
 Qed.
 
 Lemma labels_roundtrip l :
-  Forall (fun c => has_us c = false /\ has_sp c = false) l -> map convert_label (map field_label l) = l.
+  Forall (fun c => has_sp c = false /\ has_brace c = false) l -> map convert_label (map field_label l) = l.
 Proof.
   induction 1 as [|c l [H1 H2] _ IH]; simpl; [reflexivity|].
   rewrite IH. f_equal. apply label_roundtrip; assumption.
 Qed.
 
-(* ... and NOT in general: everything after a second "_" is lost *)
-Lemma label_underscore_lost : convert_label (field_label "m_x") = "m"%string.
+(* braces are the one remaining exception: the reader strips them *)
+Lemma label_braces_lost : convert_label (field_label "{a}") = "a"%string.
 Proof. reflexivity. Qed.
 
 (* ---- concrete witnesses on a 2x1x1 mesh, two components ---- *)
@@ -178,13 +190,10 @@ Lemma wit_ok : exists f', wit_roundtrip ["a"; "b"]%string RBin8 false = OK f' /\
   n (of_mesh f') = [2; 1; 1]%Z /\ of_vals f' = [1; 2; 3; 4].
 Proof. vm_compute. eexists. split; [reflexivity|]. repeat split. Qed.
 
-Lemma wit_labels_refuted : exists f', wit_roundtrip ["m_x"; "m_y"]%string RBin8 false = OK f' /\
-  of_vdims f' = Some ["x"; "y"]%string.
-Proof. vm_compute. eexists. split; reflexivity. Qed.
+Lemma wit_underscore_ok : exists f', wit_roundtrip ["m_x"; "a-b"]%string RBin8 true = OK f' /\
+  of_vdims f' = Some ["m_x"; "a-b"]%string /\ of_nvdim f' = 2%nat /\ of_vals f' = [1; 2; 3; 4].
+Proof. vm_compute. eexists. split; [reflexivity|]. repeat split. Qed.
 
-Lemma wit_extend_vector_refuted :
-  is_ok (encode 0 0 idQ (wit_field ["a"; "b"]%string) RBin8 true true) = false /\
-  is_ok (encode 0 0 idQ (wit_field ["a"; "b"]%string) RBin4 true true) = false /\
-  is_ok (encode 0 0 idQ (wit_field ["a"; "b"]%string) RTxt true true) = true /\
-  is_ok (wit_roundtrip ["a"; "b"]%string RTxt true) = false.
-Proof. vm_compute. repeat split. Qed.
+Lemma wit_braces_refuted : exists f', wit_roundtrip ["{a}"; "b"]%string RBin8 false = OK f' /\
+  of_vdims f' = Some ["a"; "b"]%string.
+Proof. vm_compute. eexists. split; reflexivity. Qed.
